@@ -257,7 +257,13 @@ def gen_program(seed: int) -> Dict[str, Any]:
         ops.append({"op": "setting", "key": k_, "value": v_})
     if early != "none":
         # edits made on an assembled mesh take effect at the next assembly
-        ops.append(rs.pick([{"op": "clear"}, {"op": "backport"}]))
+        tail = rs.pick([{"op": "clear"}, {"op": "backport"}])
+        fr = rs.sub("flip")
+        flippable = [op["name"] for op in ops if op["op"] == "hex" and op["name"] != victim and not op.get("edges")]
+        if tail["op"] == "clear" and flippable and fr.chance(0.35):
+            # an operation that has been assembled once is turned over (top and bottom face swapped)
+            ops.append({"op": "invert", "target": fr.pick(flippable)})
+        ops.append(tail)
     ops.append({"op": "write", "path": DICT, "debug": VTK if rs.chance(0.7) else None})
     if rs.sub("remesh").chance(0.2):
         # the same entities in a second Mesh object: must render to the same file
@@ -295,6 +301,17 @@ def ref_from_program(program: Dict[str, Any]) -> Dict[str, RefOp]:
             r = RefOp(op["name"])
             r.points = [r8(p) for p in op["corners"]]
             out[op["name"]] = r
+        elif k == "invert" and op["target"] in out:
+            # turned over: old top face = new bottom face; patches, projections and labels travel with the faces
+            r = out[op["target"]]
+            r.points = r.points[4:] + r.points[:4]
+            r.corner_labels = r.corner_labels[4:] + r.corner_labels[:4]
+            for dct in (r.patches, r.face_labels):
+                t, b = dct.pop("top", None), dct.pop("bottom", None)
+                if t is not None:
+                    dct["bottom"] = t
+                if b is not None:
+                    dct["top"] = b
         elif k in ("patch", "zone", "project_side", "project_corner") and op["target"] in out:
             r = out[op["target"]]
             if k == "patch":
